@@ -66,6 +66,12 @@ def run(tier, seed):
     scaninfo = scanengine.part(PROP, tier, seed, rd, fxv, viol, cst, ["RangeStable", "Linearizable"], collect)
     st["traces"] += cst["traces"]; st["states"] += cst["states"]; st["transitions"] += cst["transitions"]
     st["events"] += cst["events"]
+    # story: the medium loses its tail under the open store (values on the device only): a scan fails or answers exactly
+    import seqengine as _sq
+    _sv, _sn, _sst = _sq.run_stories(PROP, fxv, rd, "scanstory", 3 if tier == "quick" else 12,
+                                     "a range query over a damaged medium answered with a subset of the live keys", inv=("RangeExact",))
+    viol = viol + _sv
+    st["traces"] += _sn; st["states"] += _sst
     cov = q.coverage_dict(
         st, sum(r.distinct for r in mc), sum(r.generated for r in mc),
         "one trace = one seeded program with a range_query (bounds: keys, prefixes, extensions, empty, "
@@ -77,4 +83,7 @@ def run(tier, seed):
 
 
 def replay(path):
+    import seqengine as _sq
+    if _sq.is_story(path):
+        return _sq.replay_story(PROP, path)
     return q_replay(path, INV)
